@@ -108,7 +108,10 @@ def main(tier, seed):
     progs += [(nm, p.text(), p) for nm, p in finding_witnesses()]
     progs += [(nm, s, None) for nm, s in impl.repo_programs() if "error" not in nm and "constexpr" not in nm]
     jobs = []
-    variants = [dict(inline_functions=False), dict(inline_functions=True), dict(inline_functions=False, compact=True)]
+    variants = [dict(inline_functions=False), dict(inline_functions=True), dict(inline_functions=False, compact=True),
+                # comment options put text behind the operands of a line (label references included)
+                dict(inline_functions=False, original_code_as_comment=True, generated_comments=True),
+                dict(inline_functions=True, original_code_as_comment=True)]
     if tier == "thorough":
         variants += [dict(inline_functions=False, use_push_pop_functions=True), dict(inline_functions=False, tail_call_optimization=True)]
     for name, src, p in progs:
